@@ -1,5 +1,5 @@
 """C02 - the safe API yields only valid positions; a move is accepted iff it is legal."""
-from . import apirules, sanrules, hashrules, attackrules, validaterules, genrules
+from . import apirules, sanrules, hashrules, attackrules, validaterules, genrules, witness
 from .common import sim_rules
 
 from .aisetup import total_roots_rule
@@ -8,6 +8,9 @@ from .aisetup import total_roots_rule
 def run(ctx):
     facts = ctx.facts("dev")
     ctx.decided += [
+        "M7c the legality test used by validate/SAN/legal generation examines the king against the occupancy and the attacker set *after* "
+        "the move, with the captured man (also the en-passant victim) removed from both (= C01/N4)",
+        'M6w E4 witnesses: Unchecked/TryUnchecked::new, make_move_unchecked and Move::new_unchecked need `unsafe`; Board.r is not accessible from another crate',
         "M1/M3 every path of every Make::make_raw that returns Ok has made exactly one make_move_unchecked on a certified move: validated "
         "semilegal on that board and followed by a negative is_opponent_king_attacked test (Move, uci::Move, Uci<S>), or the Ok payload of a "
         "certified legal producer on that board (san::Move, San<S>), or the wrapper's unsafe constructor contract (Unchecked, TryUnchecked)",
@@ -36,9 +39,12 @@ def run(ctx):
     genrules.semilegal_rule(ctx, facts, "M3s", thorough=True)
     hashrules.writers_rule(ctx, facts, "M6")
     attackrules.prechecker_rule(ctx, facts, "M7")
+    attackrules.checker_rule(ctx, facts, "M7c")
     validaterules.errors_rule(ctx, facts, "M8")
     sim_rules(ctx, facts, {
         "M9": ("a made move leaves a raw board that validation would not alter: squares, side, en-passant mark, castling rights "
                "re-examined on every changed home square, counters in range (abstract board, shared with C03)",
                ("cells", "fields", "castling", "counter", "unmodelled"), "make/"),
     })
+    witness.cf_rule(ctx, 'M6w', ('cf/C02/', 'cf/C19/unsafe-make', 'cf/C19/unsafe-new'),
+                    'safe code outside the crate cannot reach the unchecked make/constructors or the raw board inside a Board (compile-fail witnesses)')
